@@ -895,6 +895,8 @@ def check(ctx: Ctx) -> None:
     check_ownership(ctx)
     from . import _extra
     _extra.check_activity_accumulates(ctx, 'R20.8')
+    from . import _stoppers
+    _stoppers.check_iteration_snapshots(ctx, 'R20.9')
 
 
 SPEC = PropSpec(
